@@ -21,7 +21,7 @@ def relevant_ops(prop):
     return ops
 
 
-def pool(prop, limit):
+def pool(prop, limit, cfg='default'):
     spec = engine.PROPS[prop]
     items = [(n, bharness.b_transform(it)) for n, it in corpus.items() if bharness.compatible(it)]
     allit = [(n, bharness.b_transform(it)) for n, it in enumerate_items.all_items(spec.get('enums')) if bharness.compatible(it)]
@@ -29,7 +29,7 @@ def pool(prop, limit):
     if tr:
         allit = [(n, it) for n, it in allit if set(bharness.derived_traits(it)) & set(tr)]
     step = max(1, len(allit) // limit)
-    return items + allit[::step]
+    return [(n, it) for n, it in items + allit[::step] if bharness.compatible_cfg(it, cfg)]
 
 
 def b_config(prop, cfg):
@@ -51,11 +51,68 @@ def filter_failures(prop, rep):
     return out
 
 
-def smoke(prop, cfg, limit=60):
-    """B on a sample of the property's pool. Returns (report, relevant failures)."""
-    items = pool(prop, limit)
+def accepted(cfg, its, tag):
+    """Keep the items the real macro accepts in this configuration."""
+    import runner
+    if not its:
+        return []
+    hook, log = runner.run_hook(cfg, ['2 ' + it.rust() for it in its], tag=tag)
+    if hook is None:
+        raise RuntimeError('hook run failed: ' + log[-300:])
+    return [it for it, h in zip(its, hook) if h.startswith('ok')]
+
+
+def ready_items(prop, cfg, n, seed):
+    """n random compile-ready items (gen/bgen.py) accepted by the macro; for C06/C17 also negative probes
+    (a non-skipped non-`Eq` field under a derived `Eq`: rustc must reject)."""
+    import random
+    import bgen
+    rng = random.Random(seed)
+    zero = cfg in ('zeroize', 'zod', 'safe-zod')
+    tr = engine.PROPS[prop]['traits']
+    its = [it for it in bgen.items(rng, 2 * n, zero=zero, focus=(tr or None)) if bharness.compatible_cfg(it, cfg)]
+    if tr:
+        its = [it for it in its if set(bharness.derived_traits(it)) & set(tr)]
+    out = [('ready', bharness.b_transform(it)) for it in accepted(cfg, its, '-%s-ready' % prop)[:n]]
+    if prop in ('C06', 'C17'):
+        neg = accepted(cfg, bgen.negatives(rng, 24), '-%s-neg' % prop)[:8]
+        out += [('negative', bharness.b_transform(it)) for it in neg]
+    return out
+
+
+def smoke(prop, cfg, limit=60, seed=20260929):
+    """B on a sample of the property's pool plus random compile-ready items. Returns (report, relevant failures)."""
+    items = pool(prop, limit, b_config(prop, cfg)) + ready_items(prop, b_config(prop, cfg), max(20, limit // 2), seed)
     rep = bharness.run_b(b_config(prop, cfg), items, hostile=(prop == 'C14'))
     return rep, filter_failures(prop, rep), rep['model_failures']
+
+
+def directed(prop, cfg, notes, n=6000, cap=60):
+    """Directed search: expand thousands of compile-ready random items (gen/bgen.py) with the real macro (hook) and the
+    model; the ones on which the two differ for this property are compile-ready inputs on which the code no longer does
+    what the model does. Returns [(name, transformed item)]."""
+    import random
+    import bgen
+    import runner
+    rng = random.Random(20260929)
+    zero = cfg in ('zeroize', 'zod', 'safe-zod')
+    tr = engine.PROPS[prop]['traits']
+    its = bgen.items(rng, n, zero=zero, focus=(tr or None))
+    its = [it for it in its if bharness.compatible_cfg(it, cfg)]
+    hook, log = runner.run_hook(cfg, ['2 ' + it.rust() for it in its], tag='-%s-directed' % prop)
+    if hook is None:
+        notes.append('directed search: hook run failed')
+        return []
+    model = runner.run_model('expand', cfg, [it.sexp() for it in its])
+    out = []
+    for it, h, m in zip(its, hook, model):
+        if engine.compare(prop, it, h, m) is not None:
+            out.append(it)
+    notes.append('directed search: %d of %d compile-ready random items expand differently in %s' % (len(out), len(its), cfg))
+    out.sort(key=lambda it: len(it.rust()))
+    # smallest first, but keep some spread
+    pickd = out[:cap // 2] + out[cap // 2::max(1, (len(out) - cap // 2) // (cap // 2) or 1)][:cap // 2]
+    return [('directed', bharness.b_transform(it)) for it in pickd]
 
 
 def search(prop, disagreements, notes):
@@ -76,8 +133,12 @@ def search(prop, disagreements, notes):
             seen.add(it.rust())
             loose.add(len(items))
             items.append(('disagreeing-loose:' + d['stream'], bharness.b_transform(it)))
+    try:
+        items += directed(prop, cfg, notes)
+    except Exception as e:
+        notes.append('directed search error: %r' % (e,))
     if engine.PROPS[prop]['traits'] != []:
-        items += pool(prop, 300)
+        items += pool(prop, 150, cfg)
     if not items:
         notes.append('failing-input search: no disagreeing item is executable by correspondence B')
         return None
